@@ -19,6 +19,7 @@ import tempfile
 from harness import values as V
 
 ID = "C18"
+CHECK_BUILT_DESCRIPTOR = True     # engine.oracle_of: declared records must carry their declared descriptor
 CLAIM = dict(
     text="Kernel-checked theorems about the SQLite writer as a state machine (committed / writer's view / count / batch / "
          "seen / open), by induction over all histories: the writer's view is the plain replay of the history; after "
